@@ -62,8 +62,26 @@ let f2i () =
        | _ -> ())
     | _ -> ())
 
+let show_for cap = function
+  | FErrZero -> "Eforzero T:-"
+  | FRun (vs, fin) ->
+    let st = if List.length vs >= cap then "capped" else if fin then "done" else "running" in
+    st ^ " T:" ^ (if vs = [] then "-" else String.concat ";" (List.map show_num vs))
+
+let forloop () =
+  iter_lines (fun line ->
+    match split_on ' ' line with
+    | id :: a :: b :: c :: cap :: _ ->
+      let cap = int_of_string cap in
+      let x = parse_num a and l = parse_num b in
+      let st = if c = "-" then NInt (z_of_int 1) else parse_num c in
+      print_endline (id ^ " M:" ^ show_for cap (for_im (nat_of_int cap) x l st));
+      print_endline (id ^ " S:" ^ show_for cap (for_s (nat_of_int cap) x l st))
+    | _ -> ())
+
 let () =
   match Sys.argv with
+  | [| _; "for" |] -> forloop ()
   | [| _; "ops" |] -> ops ()
   | [| _; "f2i" |] -> f2i ()
   | _ -> prerr_endline "usage: oracle.exe ops|f2i"; exit 2
